@@ -25,7 +25,7 @@ type ForeignRead struct {
 type foreignWorld struct{}
 
 func (foreignWorld) Gen(seed uint64, tier string) core.Scenario {
-	return &ForeignRead{File: genForeign(core.NewRand(seed), tier)}
+	return &ForeignRead{File: genForeign(core.NewRand(seed), tier, true)}
 }
 func (foreignWorld) Decode(raw json.RawMessage) (core.Scenario, error) {
 	var s ForeignRead
